@@ -9,8 +9,9 @@
    the C08_race_* theorems below hold for every such schedule.  What stays outside: the
    value of the delay (10 ms is only translated), the Go scheduler and memory model. *)
 From Vx Require Import base.Prelude model.ParserTypes gen.GenParser model.Parser model.Vt500Spec
-  model.ParserCheck model.ParserOwnTypes gen.GenOwn model.ParserOwn model.ParserRace
-  proofs.ParserTable proofs.ParserConform proofs.ParserLife proofs.ParserOwnProofs proofs.ParserRaceProofs.
+  model.ParserCheck model.ParserOwnTypes gen.GenOwn model.ParserOwn model.ParserRace model.ParserRetain
+  proofs.ParserTable proofs.ParserConform proofs.ParserLife proofs.ParserOwnProofs proofs.ParserRaceProofs
+  proofs.ParserRetainProofs.
 
 (* For every input, every way it is cut by silences, ending at any point (the stream given
    IS the stream up to the point where the reader ended or failed): the parser delivers
@@ -61,28 +62,49 @@ Qed.
 Print Assumptions C08_inv_reachable.
 
 (* A sequence already delivered is never modified by later parsing until the consumer hands it
-   back.  Buffers are abstract ids held by the parser, the consumer or a sync.Pool; the
-   per-function lists of ownership actions (alias into an outgoing sequence, emit, re-point
-   the field to a fresh buffer / a pool buffer / a reslice of the same array, write) are
-   TRANSLATED from ansi/parser.go on every run (gen/GenOwn.v), PATH-SENSITIVELY: one list per
-   control-flow path of each function from entry to a return ([own_paths]: both branches of
-   every if, a return ends the path, one path per switch clause, loops only with iterations
-   that either perform no ownership action or return), besides the coarse list that ignores
-   conditions ([own_all]).  A call event [ECallPath n p] runs the n-th function along its p-th
-   path, [ECall n] runs the merged list.  For every sequence of calls in any order along any
-   paths, every choice sync.Pool.Get can make, and every moment at which the consumer gives
-   buffers back (including never): no write targets a buffer the consumer holds. *)
+   back.  Buffers are abstract ARRAY ids; the parser's fields, the pooled locals of the function
+   that is running, a sequence under construction, the consumer and a sync.Pool hold VIEWS of
+   arrays (multisets: one array can be referenced twice; Finish puts one view into the pool, Get
+   takes one view out).  The per-function lists of ownership actions (attach to the outgoing
+   sequence, emit, re-point the field or local to a fresh buffer / a pool buffer / a reslice of
+   the same array, write) are TRANSLATED from ansi/parser.go on every run (gen/GenOwn.v) - for
+   the fields p.intermediate, p.oscData, p.apcData, p.dcs AND for the buffers taken from the pools
+   into locals inside a function (csiDispatch: the parameter list and every parameter slice),
+   PATH-SENSITIVELY: one list per control-flow path of each function from entry to a return
+   ([own_paths]: both branches of every if, a return ends the path, one path per switch clause),
+   with loops whose iterations perform ownership actions as loop segments ([own_lpaths]: any
+   number of iterations, each along any path of the body - csiDispatch's loop over the parameter
+   bytes), besides the coarse list that ignores conditions ([own_all]).  A call event
+   [ECallLoop n p its] runs the n-th function along its p-th path with its loops iterating as
+   [its] says, [ECallPath n p] the same with no iteration, [ECall n] the merged list; pooled
+   locals die when the call returns.  For every sequence of calls in any order along any paths
+   with any iteration counts, every choice sync.Pool.Get can make, and every moment at which the
+   consumer gives views back - one at a time, so any PART of what it holds, in any order,
+   including never: no write targets a buffer the consumer holds. *)
 Theorem C08_no_write_after_handoff : forall es : list oevent, orun oinit es = true.
-Proof. exact (no_write_after_handoff own_all_ok own_paths_ok). Qed.
+Proof. exact (no_write_after_handoff own_all_ok own_paths_ok own_lpaths_ok). Qed.
 Print Assumptions C08_no_write_after_handoff.
 
 (* the proof obligation that breaks when a path of a translated function hands a buffer over
    and returns before re-pointing the field (or writes after the hand-over): every path of every
    buffer-touching function follows the discipline, and the two renderings are consistent
    (every function has a path, every path is a subsequence of the function's merged list) *)
-Theorem C08_every_path_hands_off : paths_ok own_paths = true /\ paths_within own_all own_paths = true.
-Proof. split; [exact own_paths_ok|exact own_paths_within]. Qed.
+Theorem C08_every_path_hands_off :
+  paths_ok own_paths = true /\ paths_within own_all own_paths = true /\
+  (* ... and so does every looped path: each loop body keeps the scanner's state (a loop
+     invariant), nothing is attached to a sequence twice; dropping the loops of own_lpaths gives
+     exactly own_paths, every loop body is a subsequence of the function's merged list *)
+  lpaths_ok own_lpaths = true /\ lpaths_within own_all own_paths own_lpaths = true.
+Proof. split; [exact own_paths_ok|split; [exact own_paths_within|split; [exact own_lpaths_ok|exact own_lpaths_within]]]. Qed.
 Print Assumptions C08_every_path_hands_off.
+
+(* the loop rule is sound: a looped path accepted by the scanner is accepted in EVERY unrolling
+   (every number of iterations, every choice of body per iteration) - for any looped path, not
+   only the translated ones *)
+Theorem C08_loop_invariant_sound : forall (lp : list oseg) (its : list (list nat)),
+  lpath_ok lp = true -> handoff_scan (call_lacts lp its) [] [] = true.
+Proof. intros lp its H. exact (lpath_ok_unroll lp its H). Qed.
+Print Assumptions C08_loop_invariant_sound.
 
 (* stated on states: after ANY event sequence none of the parser's current buffers is held by
    the consumer - whatever runs next writes into memory the consumer cannot see *)
@@ -95,11 +117,68 @@ Print Assumptions C08_consumer_never_holds_current.
    taken before the field was re-pointed) is rejected as a path although the function's merged
    list - where the re-pointing of the slow path follows - is accepted; and after that path, from
    any state and for any buffer kind, the next write hits a buffer the consumer holds *)
+(* (with pooled locals in the vocabulary: the path is rejected exactly for the parser's FIELDS -
+   a local dies at the return, attach-emit-return is what a dispatch does with its parameter
+   buffers -; the second half, that a write through [k] after that path hits the consumer's
+   buffer, holds for every kind) *)
 Theorem C08_early_return_refuted : forall (s : ost) (k : bkind) (choices : list (option Z)),
-  handoff_ok [OAlias k; OEmit] = false /\
+  handoff_ok [OAlias k; OEmit] = is_loc k /\
   (let '(s1, _, _) := run_fn s [OAlias k; OEmit] choices in write_safe s1 (OWrite k)) = false.
 Proof. exact early_return_unsafe. Qed.
 Print Assumptions C08_early_return_refuted.
+
+(* THE POOL INVARIANT.  After any event sequence the views in the pool, the views the consumer
+   holds and the views of a pending sequence are pairwise different arrays (no array is held
+   through two views), and none of them is an array a parser field or live local points to: so
+   sync.Pool.Get can only hand out an array nobody else holds, and Finish - one view at a time,
+   any subset of what was delivered, any order - keeps it so. *)
+Theorem C08_views_pairwise_disjoint : forall es : list oevent,
+  let s := ofinal oinit es in
+  NoDup (pool s ++ consumer s ++ outgoing s) /\ forall k, ~ In (cur s k) (pool s ++ consumer s).
+Proof. exact views_pairwise_disjoint. Qed.
+Print Assumptions C08_views_pairwise_disjoint.
+
+(* the invariant needs the "attached once" rule.  Carving: a buffer is attached to the sequence,
+   the field / local is re-sliced (the SAME array under a new view: param = param[len(param):])
+   and attached again - one array handed out as two buffers.  The scanner rejects it for every
+   kind, and from ANY state: the consumer gives both views back (Finish puts each into the pool),
+   the next dispatch gets the array from the pool and delivers it, the dispatch after that gets
+   the SAME array from the pool and writes into it while the consumer still holds the previous
+   sequence.  Needs a hand-back followed by retention: a consumer that keeps everything (empty
+   pool) or hands everything back at once never sees it. *)
+Theorem C08_carved_views_refuted : forall (s : ost) (k : bkind),
+  handoff_ok (carve k) = false /\
+  (let id := cur s k in
+   let '(s1, _, _) := run_fn s (carve k) [] in
+   let s2 := finish_view (finish_view s1 id) id in
+   let '(s3, _, _) := run_fn s2 [OReplace k PoolGet; OAlias k; OEmit] [Some id] in
+   let '(s4, ok, _) := run_fn s3 [OReplace k PoolGet; OWrite k] [Some id] in ok) = false.
+Proof. exact carved_views_unsafe. Qed.
+Print Assumptions C08_carved_views_refuted.
+
+(* the same on the translated shape: csiDispatch's loop with the "carve the next parameter out of
+   the rest of the slice" body is rejected as a looped path (the body does not keep the loop
+   invariant: the local is still attached when the iteration ends), although each single
+   sequence it builds reads correctly *)
+Example C08_carving_loop_rejected :
+  lpath_ok [SActs [OReplace (KLoc 0) PoolGet; OAlias (KLoc 0); OReplace (KLoc 1) PoolGet];
+            SLoop [[OWrite (KLoc 1); OWrite (KLoc 0); OAlias (KLoc 1); OReplace (KLoc 1) Reslice];
+                   [OWrite (KLoc 1); OWrite (KLoc 0); OAlias (KLoc 1); OReplace (KLoc 1) PoolGet]; [OWrite (KLoc 1)]; []];
+            SActs [OWrite (KLoc 1); OWrite (KLoc 0); OAlias (KLoc 1); OEmit]] = false /\
+  lpath_ok [SActs [OReplace (KLoc 0) PoolGet; OAlias (KLoc 0); OReplace (KLoc 1) PoolGet];
+            SLoop [[OWrite (KLoc 1); OWrite (KLoc 0); OAlias (KLoc 1); OReplace (KLoc 1) PoolGet]; [OWrite (KLoc 1)]; []];
+            SActs [OWrite (KLoc 1); OWrite (KLoc 0); OAlias (KLoc 1); OEmit]] = true.
+Proof. vm_compute. split; reflexivity. Qed.
+
+(* non-vacuity of the looped events: CSI 1;2;3 (looped path 3 of csiDispatch, two ';' iterations,
+   all buffers new) delivered; the consumer hands back ONE parameter slice and the list but keeps
+   the rest; CSI 4:5;6 is built from the two pool buffers and a new one; the run is safe and the
+   consumer still holds the two slices it kept *)
+Example C08_loop_schedule_example :
+  orun oinit [ECallLoop 3 3 [[0; 0]%nat] [None; None; None; None]; EFinish 5; EFinish 4;
+              ECallLoop 3 3 [[1; 0]%nat] [Some 4; Some 5; None]] = true /\
+  consumer (ofinal oinit [ECallLoop 3 3 [[0; 0]%nat] [None; None; None; None]; EFinish 5; EFinish 4]) = [7; 6].
+Proof. vm_compute. split; reflexivity. Qed.
 
 Example C08_merged_list_hides_early_return :
   handoff_ok [OAlias KInter; OEmit; OReplace KInter PoolGet; OEmit] = true /\
@@ -199,6 +278,38 @@ Example C08_race_example :
   rout (r_run code_guarded [RRune 27; RRune 27; RFire; RRune 120; RFire; REof; RFire]) =
     [IC0 27; IPrint [120]; IEof].
 Proof. vm_compute. reflexivity. Qed.
+
+(* Hand-off on one observation of the real parser (stream "retain": a consumer hands some
+   sequences back at once and keeps the others, and looks at the kept ones again after the parser
+   stopped).  The predicate [c08_retain_holds] - one end marker, last; every kept sequence reads as
+   it was delivered - holds of the model's observation for every input and every set of kept
+   positions, so a case without mismatch is a case without violation. *)
+Theorem C08_retained_reads_as_delivered : forall (segs : list (list Z)) (kept : list Z),
+  c08_retain_holds (segs, fst (model_retain segs kept), snd (model_retain segs kept)) = true.
+Proof. exact model_retain_holds. Qed.
+Print Assumptions C08_retained_reads_as_delivered.
+
+Theorem C08_retain_no_mismatch_no_violation : forall c : rcase,
+  c08_retain_mismatches [c] = [] -> c08_retain_violations [c] = [].
+Proof. exact retain_no_mismatch_no_violation. Qed.
+Print Assumptions C08_retain_no_mismatch_no_violation.
+
+(* the predicate is falsifiable: the observation made with the carving change - CSI 1;2 handed
+   back, CSI 3;4 kept, CSI 5;6 parsed: the kept one reads 5;4 at the end *)
+Example C08_retain_predicate_example :
+  c08_retain_violations
+    [([[27; 91; 49; 59; 50; 109; 27; 91; 51; 59; 52; 109; 27; 91; 53; 59; 54; 109]],
+      [ICsi [] [[1]; [2]] 109; ICsi [] [[3]; [4]] 109; ICsi [] [[5]; [6]] 109; IEof],
+      [(1, ICsi [] [[5]; [4]] 109)])] = [0] /\
+  c08_retain_violations
+    [([[27; 91; 49; 59; 50; 109; 27; 91; 51; 59; 52; 109; 27; 91; 53; 59; 54; 109]],
+      [ICsi [] [[1]; [2]] 109; ICsi [] [[3]; [4]] 109; ICsi [] [[5]; [6]] 109; IEof],
+      [(1, ICsi [] [[3]; [4]] 109)])] = [] /\
+  c08_retain_mismatches
+    [([[27; 91; 49; 59; 50; 109; 27; 91; 51; 59; 52; 109; 27; 91; 53; 59; 54; 109]],
+      [ICsi [] [[1]; [2]] 109; ICsi [] [[3]; [4]] 109; ICsi [] [[5]; [6]] 109; IEof],
+      [(1, ICsi [] [[3]; [4]] 109)])] = [].
+Proof. vm_compute. repeat split; reflexivity. Qed.
 
 Example C08_example :
   parse_segments [[27; 93; 97; 27]; [92; 120]] = [IOsc [97]; IC0 27; IPrint [92; 120]; IEof].
